@@ -280,6 +280,12 @@ class HTTPRequestParser:
             if connection.lower() != "keep-alive":
                 self.connection_close = True
 
+        if version != "1.1" and "TRANSFER_ENCODING" in headers:
+            # RFC9112 section 6.1: Transfer-Encoding on a request that is not
+            # HTTP/1.1 means the framing is faulty, the connection must be
+            # closed after processing the message.
+            self.connection_close = True
+
         if version == "1.1":
             # since the server buffers data from chunked transfers and clients
             # never need to deal with chunked requests, downstream clients
